@@ -241,15 +241,16 @@ def new_stream(th, phases):
 
 
 def plant(w, s, name, pattern):
-    """Symbolic entries of any sign.  'nz': every entry stored and non-zero (no forks; distinct leaves at every
-    position, so equality with the leaf proves the position);  'sparse': zero / maybe-zero / non-zero entries."""
+    """Symbolic entries.  'pos': every entry stored and > 0 (distinct leaves at every position, so equality with the
+    leaf proves the position; sums over phases cannot cancel, so reads do not fork);  'any': stored, non-zero, any sign
+    (sums over phases may cancel: one fork per chemical);  'sparse': absent / maybe-zero / positive entries."""
     IDs = s.chemicals.IDs
     maybe_used = False
     for pi, (phase, sv) in enumerate(W.rows_of(s)):
         for k, ID in enumerate(IDs):
-            kind = 'nz'
+            kind = pattern
             if pattern == 'sparse':
-                kind = ('zero', 'maybe', 'nz')[(pi + k) % 3]
+                kind = ('zero', 'maybe', 'pos')[(pi + k) % 3]
                 if kind == 'maybe':
                     if maybe_used: kind = 'zero'
                     maybe_used = True
@@ -257,10 +258,12 @@ def plant(w, s, name, pattern):
                 kind = 'zero'
             if kind == 'zero':
                 continue
-            if kind == 'nz':
+            if kind == 'pos':
+                sv.dct[k] = w.real(f'{name}.{phase}.{ID}', lo=0., lo_strict=True)
+            elif kind == 'any':
                 sv.dct[k] = w.real(f'{name}.{phase}.{ID}', nonzero=True)
             else:
-                v = w.real(f'{name}.{phase}.{ID}')
+                v = w.real(f'{name}.{phase}.{ID}', lo=0.)
                 if v: sv.dct[k] = v
 
 
@@ -453,16 +456,24 @@ def chem_cache_incoherent(spec, cs):
 
 
 def multi_cache_incoherent(spec, imol):
+    """Entries of the MaterialIndexer cache that differ from what the miss branch computes for the same key (the real
+    miss branch, run with both caches temporarily emptied), or whose kind / sum-across-phases flag is not the oracle's.
+    (The layout of the index part is the indexer's own business; the reads pin down its meaning.)"""
     bad = []
-    phases = imol._phases
-    for key, val in list(imol._index_cache.items()):
+    cs = imol._chemicals
+    saved_m, saved_c = imol._index_cache, cs.__dict__['_index_cache']
+    for key, val in list(saved_m.items()):
+        imol._index_cache = {}
+        cs.__dict__['_index_cache'] = {}
         try:
-            exp = multi_classify(spec, phases, key)
-            ok = (isinstance(val, tuple) and len(val) == 3 and val[1] == exp[1] and bool(val[2]) == exp[2]
-                  and (tuple(val[0]) == tuple(exp[0]) and _eq_index(val[0][1], exp[0][1]) if isinstance(exp[0], tuple)
-                       else _eq_index(val[0], exp[0])))
+            fresh = imol._get_index_data(key)
+            exp = multi_classify(spec, imol._phases, key)
+            ok = (isinstance(val, tuple) and len(val) == 3 and fresh == val and val[1] == exp[1] and bool(val[2]) == exp[2])
         except Exception:
             ok = False
+        finally:
+            imol._index_cache = saved_m
+            cs.__dict__['_index_cache'] = saved_c
         if not ok: bad.append((key, val))
     return bad
 
@@ -553,6 +564,10 @@ def cross_keys(wc, spec):
 
 # =========================================================================== groups
 
+def _patterns(sname):
+    return ('pos', 'sparse', 'any') if len(SETS[sname]) <= 2 else ('pos', 'sparse')
+
+
 def _sets(tier, quick=(1, 2, 3, 4), thorough=(1, 2, 3, '3r', 4, 5, 6, 8)):
     return list(thorough if tier == 'thorough' else quick)
 
@@ -574,7 +589,7 @@ def names(w, cfg):
     wc = cfg['world']
     cs, th, spec = build(wc)
     s = new_stream(th, 'l')
-    plant(w, s, 's', 'nz')
+    plant(w, s, 's', 'pos')
     leaf = dense_rows(s)[0][1]
     n = spec.n
     w.ensure('positions: IDs and CASs are in construction order', cs.IDs == spec.IDs and cs.CASs == spec.CASs and cs.size == n)
@@ -645,9 +660,9 @@ def read_configs(tier):
     out = []
     hs = HISTORIES_Q + (['h1201'] if tier == 'thorough' else [])
     for sname in _sets(tier):
-        for pat in ('nz', 'sparse'):
+        for pat in _patterns(sname):
             for h in hs:
-                if pat == 'sparse' and h in ('cross-copy', 'cross-sep') and tier != 'thorough': continue
+                if pat != 'pos' and h in ('cross-copy', 'cross-sep') and tier != 'thorough': continue
                 out.append({'name': f'set={sname};flows={pat};history={h}', 'world': world_cfg(sname), 'flows': pat,
                             'history': h, 'rich': tier == 'thorough'})
     return out
@@ -689,11 +704,11 @@ def mread_configs(tier):
     hs = HISTORIES_Q + (['h1201'] if tier == 'thorough' else [])
     for sname in _sets(tier):
         for pn, ph in ps.items():
-            for pat in ('nz', 'sparse'):
+            for pat in _patterns(sname):
                 for h in hs:
                     if tier != 'thorough':
                         if pn != 'gl' and h not in ('fresh', 'h501'): continue
-                        if pat == 'sparse' and h in ('cross-copy', 'cross-sep', 'h101'): continue
+                        if pat != 'pos' and h in ('cross-copy', 'cross-sep', 'h101'): continue
                     out.append({'name': f'set={sname};phases={pn};flows={pat};history={h}', 'world': world_cfg(sname),
                                 'phases': list(ph), 'flows': pat, 'history': h, 'rich': tier == 'thorough'})
     return out
@@ -726,7 +741,7 @@ def read_multi(w, cfg):
     ensure_coherent(w, spec, s, 'after the lookups')
     # a second indexer on the same (phases, chemicals) shares the class-level cache: same answers there
     s2 = new_stream(th, cfg['phases'])
-    plant(w, s2, 's2', 'nz' if spec.n * len(phases) <= 8 else 'empty')
+    plant(w, s2, 's2', 'pos' if spec.n * len(phases) <= 8 else 'empty')
     check_items(w, spec, s2, items[::3], True, 'second indexer sharing the cache: every lookup = positional read', per_label=False)
     w.ensure('reads leave the flow data without stored zeros', stored_nonzero(w, s))
     rows = dense_rows(s)
@@ -786,7 +801,7 @@ def write_configs(tier):
                 for h in (['fresh', 'h101', 'cross-mix'] if tier == 'thorough' or view == 'mol' else ['fresh']):
                     if tier != 'thorough' and h != 'fresh' and not (lab.startswith('group') or lab in ('tuple', 'ID')): continue
                     out.append({'name': f'set={sname};op={i}:{lab}={shape};view={view};history={h}', 'world': wc,
-                                'op': i, 'view': view, 'history': h, 'flows': 'sparse' if i % 2 else 'nz'})
+                                'op': i, 'view': view, 'history': h, 'flows': 'sparse' if i % 2 else 'pos'})
     return out
 
 
@@ -866,7 +881,7 @@ def mwrite_configs(tier):
                 if tier != 'thorough' and pn != 'gl' and i % 3: continue
                 for h in (['fresh', 'h501', 'cross-mix'] if tier == 'thorough' else ['fresh']):
                     out.append({'name': f'set={sname};phases={pn};op={i}:{lab}={shape};history={h}', 'world': wc,
-                                'phases': list(ph), 'op': i, 'history': h, 'flows': 'sparse' if i % 2 else 'nz'})
+                                'phases': list(ph), 'op': i, 'history': h, 'flows': 'sparse' if i % 2 else 'pos'})
     return out
 
 
@@ -957,7 +972,7 @@ def redefine_group(w, cfg):
     cs, th, spec = build(wc)
     multi = not isinstance(cfg['phases'], str)
     s = new_stream(th, cfg['phases'])
-    plant(w, s, 's', 'nz')
+    plant(w, s, 's', 'pos')
     run_history(w, wc, spec, s, cfg['history'], multi)
     phases = s._imol._phases if multi else None
     items = multi_keys(spec, phases) if multi else chem_keys(spec)
